@@ -251,3 +251,114 @@ def part_c18(chk, tier, jobs, oracle):
     else:
         chk.validated += 1
         chk.log('complete_expr: the public API offers the aliased and the plain module accessor')
+
+
+# ------------------------------------------------------------------------------------------------ C18: fields offered after `value.`
+class CommonFieldsSpec:
+    """def::lower::LowerCtx::lower_custom_type (real MIR; the syntax accessors and lower_constructor are havoc'd / modelled):
+    k constructors whose labelled-field sets are symbolic subsets of {a, b} (a constructor may have none).  The ADT's common_fields -
+    what `value.` completion and field access offer - must be exactly the labels EVERY constructor has (with the same type)."""
+
+    def __init__(self, k):
+        self.k = k
+
+    def make_interp(self):
+        it = W.interp('ide', uc=True)
+        it.allow = [r'^def::lower::<impl at [^>]*>::(lower_custom_type|lower_constructors|next_constructor_idx)$', r'^def::lower::<impl at [^>]*>::lower_custom_type::\{closure#\d+\}$']
+        scopes.install(it)
+        self.has = [[z3.Bool('c%d_%s' % (i, l)) for l in 'ab'] for i in range(self.k)]
+        spec = self
+        tref = Agg('enum', 'def::module::TypeRef', 'Hole', [])
+
+        def constructors(it_, c, a):
+            return PyIter(iter([Opaque(('variant', i)) for i in range(spec.k)]))
+
+        def lower_constructor(it_, c, a):
+            v = models.deref(a[1]); i = v.tag[1]
+            mp = MapV(); labels = []
+            for j, l in enumerate('ab'):
+                if it_.choose([(spec.has[i][j], True), (z3.Not(spec.has[i][j]), False)]):
+                    mp.kv.append((scopes.smol(StrV(l)), dcopy(tref))); labels.append(l)
+            spec.sets[i] = labels
+            return some(tup(scopes.idx(i), mp))
+
+        def alloc_custom_type(it_, c, a):
+            spec.adt = models.deref(a[1])
+            return scopes.idx(0)
+        it.models['Adt::constructors'] = constructors
+        it.models['LowerCtx::lower_constructor'] = lower_constructor
+        it.models['LowerCtx::alloc_custom_type'] = alloc_custom_type
+        it.models['LowerCtx::next_constructor_idx'] = lambda it_, c, a: scopes.idx(0)
+        it.models['HashMap::retain'] = retain
+        it.models['<TypeRef as PartialEq>::eq'] = lambda it_, c, a: BoolV(True)
+        return it
+
+    def run_path(self, it):
+        b = next(bd for n, bd in W.crates['ide'].items() if re.match(r'^def::lower::<impl at [^>]*>::lower_custom_type$', n))
+        self.sets = {}; self.adt = None
+        it.run_body(b, [LazyV('lowerctx'), LazyV('adt_node')])
+        if self.adt is None:
+            return {'cls': 'not-lowered', 'ok': True}
+        import os
+        src = open(os.path.join(os.environ.get('VERIF_REPO', '/repo'), 'crates/ide/src/def/module.rs'), encoding='utf-8').read()
+        m = re.search(r'pub struct AdtData\s*\{(.*?)\n\}', src, flags=re.S)
+        fields = re.findall(r'^\s*(?:pub(?:\([^)]*\))?\s+)?(\w+)\s*:', re.sub(r'//[^\n]*', '', m.group(1)), flags=re.M)
+        cf = models.deref(self.adt.fields[fields.index('common_fields')])
+        got = sorted(strs(k) for k, _ in cf.kv)
+        want = sorted(set('ab').intersection(*[set(self.sets.get(i, [])) for i in range(self.k)])) if self.k else []
+        desc = 'type T { %s }' % ' '.join('C%d%s' % (i, ('(' + ', '.join('%s: Int' % l for l in self.sets.get(i, [])) + ')') if self.sets.get(i) else '') for i in range(self.k))
+        rec = {'cls': 'common:%s' % got, 'ok': True, 'sample': {'adt': desc, 'common_fields': got}}
+        if got != want:
+            rec = {'cls': 'violation', 'ok': False, 'why': ['C18: `%s`: the fields offered after `value.` are %s, the fields every constructor has are %s' % (desc, got, want)], 'cex': {'adt': desc, 'sets': {str(k): v for k, v in self.sets.items()}}}
+        return rec
+
+    def on_panic(self, it, e):
+        return {'cls': 'panic-under-havoc', 'ok': True}
+
+
+def retain(it_, c, a):
+    mp = models.deref(a[0]); keep = []
+    for (k, v) in list(mp.kv):
+        cell = [v]
+        r = it_.call_closure(a[1], [RefV([k], 0), RefV(cell, 0)])
+        if it_.choose_bool(r):
+            keep.append((k, cell[0]))
+    mp.kv[:] = keep
+    return UNIT
+
+
+def fields_factory(k):
+    return CommonFieldsSpec(k)
+
+
+def native_dot_fields(oracle):
+    """`value.` completion on ADTs where not every constructor has the field"""
+    out = []
+    for adt, want in (('type Pet { Dog(name: String) Stray }', []), ('type Pet { Dog(name: String) Cat(name: String) }', ['name']), ('type Pet { Dog(name: String, age: Int) Cat(name: String) Tagged(Int) }', [])):
+        app = adt + '\nfn main(p: Pet) { p. }\n'
+        r = oracle.ask('complete', json.dumps({'text': app, 'offsets': [app.index('p. }') + 2], 'trigger': '.'}))
+        labels = (r.get('complete') or [None])[0] if isinstance(r, dict) else None
+        out.append((adt, want, labels, r))
+    return out
+
+
+def part_c18_fields(chk, tier, jobs, oracle):
+    from mirsym import explore
+    found = []
+    for k in ((1, 2) if tier == 'quick' else (1, 2, 3)):
+        res, complete = explore.explore(fields_factory, (k,), jobs=1)
+        chk.add_run('lower_custom_type: %d constructors with symbolic labelled-field sets over {a, b}: common fields = labels every constructor has' % k, res, complete, {'constructors': k},
+                    nontrivial_classes=lambda c: c.startswith('common:'))
+        found += res.violations
+    probes = native_dot_fields(oracle)
+    wrong = [(a, w, l) for (a, w, l, r) in probes if l is None or sorted(l) != sorted(w)]
+    if found:
+        if wrong:
+            chk.violation('complete:dot-fields', 'bounded', '%s; public API: completion after `p.` for `%s` offers %s, the type has %s' % (found[0]['why'][0][:400], wrong[0][0], wrong[0][2], wrong[0][1]), {'adt': wrong[0][0]}, confirmed=True)
+        else:
+            chk.inconclusive.append('common-fields kernel: %s -- but `value.` completion offers the expected fields on %d probe types' % (found[0]['why'][0][:300], len(probes)))
+    elif wrong:
+        chk.inconclusive.append('translator validation FAILED: common-fields kernel finds no problem; `value.` completion on `%s` offers %s, expected %s' % wrong[0])
+    else:
+        chk.validated += len(probes)
+        chk.log('common fields: `value.` completion on %d probe types offers exactly the fields every constructor has' % len(probes))
